@@ -231,6 +231,19 @@ def d2_keysets(ctx, RA):
                detail='updater does not write the merged in-memory descriptor')
 
 
+def delegates_to(ctx, f, others, is_own_site):
+    """f performs none of the operations itself (no call satisfies is_own_site) and every normal path through f passes a
+    call of one and the same function of `others`: returns that function, else None."""
+    if any(isinstance(node, ast.Call) and is_own_site(cal) for node, cal in ctx.E.callees(f)):
+        return None
+    g = cfg_of(f)
+    for o in others:
+        nodes = {g.node_for(node) for node, cal in ctx.E.callees(f) if cal is o and isinstance(node, ast.Call)}
+        if nodes and not g.can_reach(g.entry, g.exit, avoid=nodes, skip_labels=('exc',)):
+            return o
+    return None
+
+
 def d3_descriptor_updates(ctx, RA, committer, step):
     upd = RA.methods.get('_update_arraydescr')
     if upd is None:
@@ -240,6 +253,13 @@ def d3_descriptor_updates(ctx, RA, committer, step):
     n = 0
     for f in funcs:
         ucalls = [node for node, cal in ctx.E.callees(f) if cal is upd and isinstance(node, ast.Call)]
+        if not ucalls:
+            dg = delegates_to(ctx, f, [g_ for g_ in funcs if g_ is not f],
+                              lambda cal: cal is committer or cal is step or cal.qualname in ('truncate_array', 'create_array'))
+            if dg is not None:
+                ctx.ok('R-POST', 'D3', f, None, 'updates-toplevel-descriptor',
+                       f'{f.qualname} changes no length itself and hands the work to {dg.qualname} on every normal path (decided there)')
+                continue
         if not ucalls:
             ctx.bad('R-POST', 'D3', f, None, 'updates-toplevel-descriptor', f'{f.qualname} rewrites the top-level descriptor',
                     detail='no call of _update_arraydescr: len/size in the top-level arraydescription.json go stale')
